@@ -7,6 +7,7 @@ LEVEL = "exploration"
 SHARDS = {"quick": 8, "thorough": 16}
 TIMEOUT = {"quick": 900, "thorough": 7200}
 REQUIRED = {"pubkey": 1500, "wif_roundtrip": 6000, "reject_scalar": 300, "reject_sec": 600, "probe.PrivateKey.wif": 1000}
+ANCHORS = ['keys:PrivateKey.__init__', 'keys:PrivateKey.wif', 'keys:PrivateKey.from_wif', 'keys:PublicKey.parse', 'keys:PublicKey.sec']
 RULE = ("scalars from boundary classes (1, 2, n-1, n-2, 2^k, 2^k-1, 1..31 leading zero bytes, near n, random) x 4 WIF flavours "
         "x both SEC forms x 3 constructors (bytes, int, from_int/parse); rejection corpora: 0, n, n+1, 2^256-1, 2^256, "
         "negatives, byte strings of every length 0..40 except 32, checksummed WIFs carrying such scalars or wrong payload "
